@@ -98,6 +98,13 @@ type serverConn struct {
 	// closeRef alone cannot say so, zero being what it holds before any stream.
 	closeRefSet uint32
 
+	// goAwayLck makes sending a GOAWAY one step, and goAwayLast is the
+	// last-stream-id of the first one sent: a later GOAWAY may repeat or lower
+	// it but must never raise it (RFC 7540 6.8).
+	goAwayLck  sync.Mutex
+	goAwaySent bool
+	goAwayLast uint32
+
 	// discardBuf holds the tail of a header field cut in half by the end of a
 	// frame, for a header block that is decoded only to keep the HPACK context
 	// in step (see discardHeaders).
@@ -781,6 +788,13 @@ loop:
 					case FrameHeaders, FrameContinuation, FrameData:
 						if !local {
 							sc.writeGoAway(fr.Stream(), StreamClosedError, "frame on closed stream")
+
+							// the streams already promised are still served, so
+							// the decoder has to see this block like any other
+							if fr.Type() != FrameData {
+								_ = sc.discardHeaders(fr)
+							}
+
 							break
 						}
 
@@ -814,6 +828,11 @@ loop:
 
 				if fr.Stream() < sc.lastID {
 					sc.writeGoAway(fr.Stream(), ProtocolError, "stream ID is lower than the latest")
+
+					// the streams already promised are still served, so the
+					// decoder has to see this block like any other
+					_ = sc.discardHeaders(fr)
+
 					continue
 				}
 
@@ -1102,9 +1121,21 @@ func (sc *serverConn) writeGoAway(strm uint32, code ErrorCode, message string) {
 	// therefore sees the other: either the id is reported here, or the stream
 	// is refused there. Reporting the id the frame at fault came on, or zero,
 	// told the peer it could replay requests that had reached a handler.
+	sc.goAwayLck.Lock()
+	defer sc.goAwayLck.Unlock()
+
 	atomic.StoreInt32((*int32)(&sc.state), int32(connStateClosed))
 
 	last := atomic.LoadUint32(&sc.lastID)
+
+	// Streams refused since the first GOAWAY still move lastID on, but the
+	// last-stream-id already announced must not grow (RFC 7540 6.8).
+	if sc.goAwaySent {
+		last = sc.goAwayLast
+	} else {
+		sc.goAwaySent = true
+		sc.goAwayLast = last
+	}
 
 	ga := AcquireFrame(FrameGoAway).(*GoAway)
 
